@@ -94,7 +94,6 @@ structure Cfg where
   reserved    : List Name
   fixResolve  : Bool := true
   fixReserved : Bool := true
-  fixCopy     : Bool := true
 
 /-! ### text level: `_resolve` -/
 
